@@ -203,7 +203,7 @@ class Gen:
                 out.append(("decrypt", self.mk_command(0x8002, cc, hv[0], len(area).to_bytes(4, "big") + area, encp)))
                 if not minimal:
                     # the decrypt attribute on the second / third session only
-                    for label, attrs in (("decrypt-2nd", (0x01, 0x21)), ("decrypt-3rd", (0x01, 0x01, 0x21))):
+                    for label, attrs in (("decrypt-2nd", (0x01, 0x21)), ("decrypt-3rd", (0x01, 0x01, 0x21)), ("decrypt-1st", (0x21, 0x01))):
                         area = b"".join(self.session_cmd(a) for a in attrs)
                         out.append((label, self.mk_command(0x8002, cc, hv[0], len(area).to_bytes(4, "big") + area, encp)))
             except NotImplementedError:
@@ -222,6 +222,9 @@ class Gen:
                 out.append(("nosess-p%d" % (i + 1), None, self.mk_response(0x8001, 0, hv[0] + p)))
         out.append(("fail", None, self.mk_response(0x8001, 0x101, b"")))
         if not minimal:
+            # TPM 1.2 style tag of a TPM_RC_BAD_TAG answer: a message that starts with a 0x00 byte
+            out.append(("fail-badtag", None, self.mk_response(0x00C4, 0x1E, b"")))
+        if not minimal:
             out.append(("fail-sess", None, self.mk_response(0x8002, 0x9A2, b"")))
         for ns in ((1,) if minimal else (1, 2)):
             area = b"".join(self.session_rsp(0x01) for _ in range(ns))
@@ -232,8 +235,9 @@ class Gen:
                 encp = b"\x00\x03\x01\x02\x03" + self.rest_after_first(tab["rp"])
                 out.append(("encrypt", True, self.mk_response(0x8002, 0, hv[0] + len(encp).to_bytes(4, "big") + encp + area)))
                 if not minimal:
-                    area = self.session_rsp(0x01) + self.session_rsp(0x41)
-                    out.append(("encrypt-2nd", True, self.mk_response(0x8002, 0, hv[0] + len(encp).to_bytes(4, "big") + encp + area)))
+                    for label, attrs in (("encrypt-2nd", (0x01, 0x41)), ("encrypt-1st", (0x41, 0x01))):
+                        area = b"".join(self.session_rsp(a) for a in attrs)
+                        out.append((label, True, self.mk_response(0x8002, 0, hv[0] + len(encp).to_bytes(4, "big") + encp + area)))
             except NotImplementedError:
                 pass
         return out
